@@ -443,7 +443,7 @@ pub fn check_task(run: Option<&Run>, mode: Mode, t: &ExtTask) -> Vec<(String, Va
 fn check_strong_flags(run: &Run, l: &str, r: &str) -> Vec<(String, Value)> {
     let mut out = vec![];
     let (Ok(left), Ok(right)) = (l.parse::<asp::Program>(), r.parse::<asp::Program>()) else { return out };
-    let cx = c03::pair_ctx(&left, &right, 6);
+    let cx = c03::pair_ctx_with(&left, &right, 6, l.starts_with("%numeric"));
     let hs = ht_space(cx.u.len());
     let _ = ht_universe;
     for (rn, rep) in [("tau-star", FormulaRepresentation::TauStar), ("mu", FormulaRepresentation::Mu)] {
@@ -553,6 +553,11 @@ pub fn run(mode: Mode, run: &Run) {
                     continue;
                 }
                 pairs.push((l.to_string(), r.to_string()));
+            }
+        }
+        for (i, pr) in c03::arith_pairs().into_iter().enumerate() {
+            if !quick || i % 2 == 1 {
+                pairs.push(pr);
             }
         }
         run.set_extra("strong_pairs_generated", json!(pairs.len()));
